@@ -259,6 +259,29 @@ func (w *World) installGlobals() {
 	})
 }
 
+// dumpStacks prints every goroutine's stack when SIM_STACKS is set (debugging a stuck run).
+func dumpStacks() {
+	if realos.Getenv("SIM_STACKS") == "" {
+		return
+	}
+	buf := make([]byte, 4<<20)
+	n := realruntime.Stack(buf, true)
+	fmt.Println(string(buf[:n]))
+}
+
+// simLogger copies the server's own log lines into the trace (debugging only: SIM_SUTLOG=1).
+type simLogger struct {
+	logging.Logger
+	w *World
+}
+
+func (l *simLogger) line(lv, f string, a ...interface{}) {
+	l.w.logf("LOG n%d %s "+f, append([]interface{}{ssched.CurrentNode(), lv}, a...)...)
+}
+func (l *simLogger) Infof(f string, a ...interface{})  { l.line("I", f, a...) }
+func (l *simLogger) Warnf(f string, a ...interface{})  { l.line("W", f, a...) }
+func (l *simLogger) Errorf(f string, a ...interface{}) { l.line("E", f, a...) }
+
 // sleep is a harness-task sleep on the simulated clock.
 func sleep(d time.Duration) { time.Sleep(d) }
 
@@ -367,6 +390,9 @@ func runScenario(t *testing.T, sc *Scenario) *Result {
 			lg := logging.GetLogger("sim")
 			lg.SetLevel(logging.LevelCritical)
 			w.logger = lg
+			if w.keepLog && realos.Getenv("SIM_SUTLOG") != "" {
+				w.logger = &simLogger{Logger: lg, w: w}
+			}
 			w.installGlobals()
 			s.Trace(fmt.Sprintf("SEED %d prop=%s kind=%s", sc.Seed, sc.Prop, sc.Kind))
 			k.run(w)
